@@ -11,7 +11,15 @@ RW = {"server.go": [(r"\btransport\.NewServerTransport\(", "vNewServerTransport(
 
 
 def run(ctx, test="^TestVerifC09$", name="C09", files=None):
-    rc, out, recs = ctx.go("", test, files or FILES, "wsrpc", timeout=1500 if ctx.thorough else 500, rewrites=RW)
+    import re
+    import props.C02 as c02
+    import props.C17 as c17
+    extra, labels = c02.instrumented(ctx, rels=("client.go", "server.go", "internal/transport/websocket_client.go"))
+    c = open(extra["client.go"]).read()
+    c = re.sub(r"\btime\.NewTimer\(", "vNewTimer(", c) + "\nvar _ = time.Now\n"
+    open(extra["client.go"], "w").write(c)
+    ctx.oblige("WebsocketClient.readPump#select#1" in labels.get("internal/transport/websocket_client.go", []), "C09_gate_labels", "(the hand-off select of the client read pump)")
+    rc, out, recs = c17.go_scaled(ctx, "", test, files or FILES, "wsrpc", None, extra, 1500 if ctx.thorough else 500)
     ctx.records += recs
     if rc != 0 or not recs:
         ctx.fail("harness:" + name, "the harness did not run to completion on this tree: " + out[-1500:], kind="correspondence", no_input=True)
